@@ -9,6 +9,7 @@ import ast
 import os
 
 import z3
+from .values import FA
 
 from .values import *
 from .pytypes import *
@@ -27,7 +28,7 @@ class Builtins:
                      "list_eq", "sorted_desc_by", "iter_trace_len", "iter_trace_arg", "iter_trace_method",
                      "iter_trace_kw", "has_key", "perm_of", "strcat", "old_len", "typename", "called", "iter_called",
                      "out_len", "out_method", "out_arg", "out_kw", "call_result", "iter_call_result", "call_count",
-                     "iter_call_count"}
+                     "iter_call_count", "dict_values", "dict_get", "dict_keys"}
     type_names = {"ValueError", "KeyError", "IndexError", "TypeError", "Exception", "UnicodeDecodeError",
                   "StopIteration", "RuntimeError", "AttributeError", "OSError", "FileNotFoundError",
                   "NotImplementedError", "RecursionError", "AssertionError", "BaseException", "ZeroDivisionError",
@@ -160,17 +161,17 @@ class Builtins:
             self._fdiv_ax = True
             a, b, t = z3.Ints("fda! fdb! fdt!")
             ax = self.eng.axioms
-            ax.append(z3.ForAll([a, t], z3.Implies(z3.And(t > 0, a >= 0, a <= t), z3.And(f(a, t) >= 0, f(a, t) <= 1)),
+            ax.append(FA([a, t], z3.Implies(z3.And(t > 0, a >= 0, a <= t), z3.And(f(a, t) >= 0, f(a, t) <= 1)),
                                 patterns=[f(a, t)]), keys={"fdiv"})
-            ax.append(z3.ForAll([a, b, t], z3.Implies(t != 0, f(a, t) + f(b, t) == f(a + b, t)),
+            ax.append(FA([a, b, t], z3.Implies(t != 0, f(a, t) + f(b, t) == f(a + b, t)),
                                 patterns=[z3.MultiPattern(f(a, t), f(b, t))]), keys={"fdiv"})
-            ax.append(z3.ForAll([t], z3.Implies(t != 0, f(t, t) == 1), patterns=[f(t, t)]), keys={"fdiv"})
-            ax.append(z3.ForAll([t], z3.Implies(t != 0, f(0, t) == 0), patterns=[f(0, t)]), keys={"fdiv"})
-            ax.append(z3.ForAll([a, b, t], z3.Implies(z3.And(t > 0, a <= b), f(a, t) <= f(b, t)),
+            ax.append(FA([t], z3.Implies(t != 0, f(t, t) == 1), patterns=[f(t, t)]), keys={"fdiv"})
+            ax.append(FA([t], z3.Implies(t != 0, f(0, t) == 0), patterns=[f(0, t)]), keys={"fdiv"})
+            ax.append(FA([a, b, t], z3.Implies(z3.And(t > 0, a <= b), f(a, t) <= f(b, t)),
                                 patterns=[z3.MultiPattern(f(a, t), f(b, t))]), keys={"fdiv"})
             # integrality gap (proved as lemma:C19::fdiv-gap by z3 in nonlinear arithmetic on every C19 run)
             gap = z3.RealVal(1) / 100000 + z3.RealVal(1) / (100000 * 2 ** 40)
-            ax.append(z3.ForAll([a, t], z3.Implies(z3.And(t > 0, t < 2 ** 40, 100000 * a > t), f(a, t) >= gap),
+            ax.append(FA([a, t], z3.Implies(z3.And(t > 0, t < 2 ** 40, 100000 * a > t), f(a, t) >= gap),
                                 patterns=[f(a, t)]), keys={"fdiv"})
             self.eng.used_assumptions.add("exact real division a/t modelled by an uninterpreted function with the axioms: "
                                           "0<=a<=t => 0<=a/t<=1; a/t+b/t=(a+b)/t; t/t=1; 0/t=0; monotone in a for t>0")
@@ -361,7 +362,7 @@ class Builtins:
             k = z3.Int("sk!")
             src = z3.Select(st.eltmap(es), base.ref)
             dst = z3.Select(st.eltmap(es), res.ref)
-            st.assume(z3.ForAll([k], z3.Implies(z3.And(k >= 0, k < ln), z3.Select(dst, k) == z3.Select(src, a + k)),
+            st.assume(FA([k], z3.Implies(z3.And(k >= 0, k < ln), z3.Select(dst, k) == z3.Select(src, a + k)),
                                 patterns=[z3.Select(dst, k)]))
             return res
         raise E.Unsupported(f"slice of {base!r}", node)
@@ -381,7 +382,7 @@ class Builtins:
         k = z3.Int("rk!")
         src = z3.Select(st.eltmap(es), l.ref)
         dst = z3.Select(st.eltmap(es), res.ref)
-        st.assume(z3.ForAll([k], z3.Implies(z3.And(k >= 0, k < n), z3.Select(dst, k) == z3.Select(src, n - 1 - k)),
+        st.assume(FA([k], z3.Implies(z3.And(k >= 0, k < n), z3.Select(dst, k) == z3.Select(src, n - 1 - k)),
                             patterns=[z3.Select(dst, k)]))
         return res
 
@@ -400,9 +401,9 @@ class Builtins:
         sa = z3.Select(st.eltmap(es), a.ref)
         sb = z3.Select(st.eltmap(es), b.ref)
         dst = z3.Select(st.eltmap(es), res.ref)
-        st.assume(z3.ForAll([k], z3.Implies(z3.And(k >= 0, k < na), z3.Select(dst, k) == z3.Select(sa, k)),
+        st.assume(FA([k], z3.Implies(z3.And(k >= 0, k < na), z3.Select(dst, k) == z3.Select(sa, k)),
                             patterns=[z3.Select(dst, k)]))
-        st.assume(z3.ForAll([k], z3.Implies(z3.And(k >= 0, k < nb), z3.Select(dst, na + k) == z3.Select(sb, k)),
+        st.assume(FA([k], z3.Implies(z3.And(k >= 0, k < nb), z3.Select(dst, na + k) == z3.Select(sb, k)),
                             patterns=[z3.Select(sb, k)]))
         return res
 
@@ -426,7 +427,7 @@ class Builtins:
         k = z3.Int("ek!")
         xa = eng.list_get_raw(st, a, k)
         xb = eng.list_get_raw(st, b, k)
-        return z3.And(na == nb, z3.ForAll([k], z3.Implies(z3.And(k >= 0, k < na), eng.values_equal(st, xa, xb))))
+        return z3.And(na == nb, FA([k], z3.Implies(z3.And(k >= 0, k < na), eng.values_equal(st, xa, xb))))
 
     # ------------------------------------------------------------------ membership
     def contains(self, st, container, x, node):
@@ -666,9 +667,14 @@ class Builtins:
             for it in seq:
                 t = t + eng.as_int(it)
             return VInt(z3.simplify(t))
+        comp = st.ghost.get("comps", {}).get(str(v.ref)) if isinstance(v, VList) else None
+        if comp is not None:
+            # sum([f(x) for x in xs if p(x)]) == sum_if(xs, f, p)   (fusion; trusted lemma schema)
+            eng.used_assumptions.add("lemma schema: sum of a comprehension equals the conditional sum over its source (fusion)")
+            return VInt(self.sum_sym(st, comp.arr, comp.n, comp.map_fn, comp.pred_fn, comp.src_elem, comp.state))
         if isinstance(v, VList) and v.elem.kind == "int":
             n = eng.list_len(st, v)
-            arr = z3.Select(st.eltmap(z3.IntSort()), v.ref)
+            arr = eng.list_arr(st, v)
             c = self.const_len(st, n)
             if c is not None:
                 t = z3.IntVal(0)
@@ -742,7 +748,7 @@ class Builtins:
         w = st.fresh("mmw", z3.IntSort())
         k = z3.Int("mmk!")
         st.assume(z3.And(w >= 0, w < n, elem(w) == r))
-        st.assume(z3.ForAll([k], z3.Implies(z3.And(k >= 0, k < n), (r <= elem(k)) if is_min else (r >= elem(k)))))
+        st.assume(FA([k], z3.Implies(z3.And(k >= 0, k < n), (r <= elem(k)) if is_min else (r >= elem(k)))))
         return VInt(r)
 
     def bi_any(self, st, args, kwargs, node):
@@ -841,11 +847,11 @@ class Builtins:
         inv = z3.Function(f"perminv!{st.fresh_ctr}", z3.IntSort(), z3.IntSort())
         k = z3.Int("sk!")
         j = z3.Int("sj!")
-        st.assume(z3.ForAll([k], z3.Implies(z3.And(k >= 0, k < n),
+        st.assume(FA([k], z3.Implies(z3.And(k >= 0, k < n),
                                             z3.And(perm(k) >= 0, perm(k) < n, inv(perm(k)) == k,
                                                    z3.Select(dst, k) == z3.Select(src, perm(k)))),
                             patterns=[z3.Select(dst, k)]))
-        st.assume(z3.ForAll([j], z3.Implies(z3.And(j >= 0, j < n),
+        st.assume(FA([j], z3.Implies(z3.And(j >= 0, j < n),
                                             z3.And(inv(j) >= 0, inv(j) < n, perm(inv(j)) == j)),
                             patterns=[inv(j)]))
         # ordering
@@ -862,7 +868,7 @@ class Builtins:
         ka, kb = keyof(a), keyof(b)
         le = eng.compare(s2, ast.GtE() if rev else ast.LtE(), ka, kb, node)
         pats = []
-        st.assume(z3.ForAll([a, b], z3.Implies(z3.And(a >= 0, a < b, b < n), le)))
+        st.assume(FA([a, b], z3.Implies(z3.And(a >= 0, a < b, b < n), le)))
         st.ghost = dict(st.ghost)
         st.ghost.setdefault("perms", {})
         st.ghost["perms"] = dict(st.ghost["perms"])
@@ -917,7 +923,7 @@ class Builtins:
         if not isinstance(itv, VList):
             raise E.Unsupported(f"comprehension over {itv!r}", n)
         es = sort_of(itv.elem)
-        arr = z3.Select(st.eltmap(es), itv.ref)
+        arr = eng.list_arr(st, itv)
         nlen = eng.list_len(st, itv)
         cstate = st.fork()
         cstate.spec_mode = 1
@@ -985,7 +991,7 @@ class Builtins:
                 bad = z3.And(s2.pc[len(st.pc):]) if len(s2.pc) > len(st.pc) else z3.BoolVal(True)
                 kk = z3.Int("cq!")
                 body = z3.substitute(bad, (k, kk))
-                st.assume(z3.ForAll([kk], z3.Not(body)))
+                st.assume(FA([kk], z3.Not(body)))
         st.fresh_ctr = max(st.fresh_ctr, s.fresh_ctr)
 
     def comp_to_list(self, st, comp, node):
@@ -1009,7 +1015,7 @@ class Builtins:
             dst = z3.Select(st.eltmap(res_sort), res.ref)
             mt = eng.unwrap(s, mv, elem_t)
             self._flow_assumptions(st, s, [k])
-            st.assume(z3.ForAll([k], z3.Implies(z3.And(k >= 0, k < n), z3.Select(dst, k) == mt),
+            st.assume(FA([k], z3.Implies(z3.And(k >= 0, k < n), z3.Select(dst, k) == mt),
                                 patterns=[z3.Select(dst, k)]))
             st.ghost = dict(st.ghost)
             comps = dict(st.ghost.get("comps", {}))
@@ -1024,7 +1030,7 @@ class Builtins:
         mt = eng.unwrap(s, mv, elem_t)
         self._flow_assumptions(st, s, [k])
         # element placement: the k-th source element, if kept, lands at index count(prefix k)
-        st.assume(z3.ForAll([k], z3.Implies(z3.And(k >= 0, k < n, pt), z3.Select(dst, cnt(arr, k)) == mt),
+        st.assume(FA([k], z3.Implies(z3.And(k >= 0, k < n, pt), z3.Select(dst, cnt(arr, k)) == mt),
                             patterns=[cnt(arr, k)]))
         # every result element comes from a kept source element (skolem src index)
         st.fresh_ctr += 1
@@ -1034,12 +1040,12 @@ class Builtins:
         pt_s = comp.pred_fn(s, x_s)
         mt_s = eng.unwrap(s, comp.map_fn(s, x_s), elem_t)
         self._flow_assumptions(st, s, [j])
-        st.assume(z3.ForAll([j], z3.Implies(z3.And(j >= 0, j < total),
+        st.assume(FA([j], z3.Implies(z3.And(j >= 0, j < total),
                                             z3.And(srcf(j) >= 0, srcf(j) < n, pt_s, cnt(arr, srcf(j)) == j,
                                                    z3.Select(dst, j) == mt_s)),
                             patterns=[z3.Select(dst, j)]))
         a, b = z3.Int("fa!"), z3.Int("fb!")
-        st.assume(z3.ForAll([a, b], z3.Implies(z3.And(a >= 0, a < b, b < total), srcf(a) < srcf(b)),
+        st.assume(FA([a, b], z3.Implies(z3.And(a >= 0, a < b, b < total), srcf(a) < srcf(b)),
                             patterns=[z3.MultiPattern(srcf(a), srcf(b))]))
         st.ghost = dict(st.ghost)
         comps = dict(st.ghost.get("comps", {}))
@@ -1057,7 +1063,7 @@ class Builtins:
         for p in new:
             fv = [v for v in bound_vars if self._mentions(p, v)]
             if fv:
-                st.assume(z3.ForAll(fv, p))
+                st.assume(FA(fv, p))
             else:
                 st.assume(p)
         s.ghost["flow_mark"] = len(s.pc)
@@ -1112,7 +1118,7 @@ class Builtins:
             asort = z3.ArraySort(z3.IntSort(), x.sort())
             a = z3.Const("ca!", asort)
             n = z3.Int("cn!")
-            self.eng.axioms.append(z3.ForAll([a, n], z3.Implies(n >= 0, z3.And(f(a, n) >= 0, f(a, n) <= n)),
+            self.eng.axioms.append(FA([a, n], z3.Implies(n >= 0, z3.And(f(a, n) >= 0, f(a, n) <= n)),
                                              patterns=[f(a, n)]), keys={f.name()})
             self.eng.used_assumptions.add("lemma schema: 0 <= count_if(xs[:n]) <= n (induction on n, not re-proved)")
         return ent["fn"]
@@ -1127,8 +1133,8 @@ class Builtins:
             a = z3.Const("sa!", asort)
             nn = z3.Int("sn!")
             body_t = z3.substitute(ent["t"], (ent["x"], z3.Select(a, nn)))
-            eng.axioms.append(z3.ForAll([a], f(a, 0) == 0), keys={f.name()})
-            eng.axioms.append(z3.ForAll([a, nn], z3.Implies(nn >= 0, f(a, nn + 1) == f(a, nn) + body_t),
+            eng.axioms.append(FA([a], f(a, 0) == 0), keys={f.name()})
+            eng.axioms.append(FA([a, nn], z3.Implies(nn >= 0, f(a, nn + 1) == f(a, nn) + body_t),
                                         patterns=[f(a, nn + 1)]), keys={f.name()})
         return ent
 
@@ -1157,7 +1163,7 @@ class Builtins:
         xw = eng.wrap(s, z3.Select(arr, w), comp.src_elem)
         pw = comp.pred_fn(s, xw) if comp.pred_fn is not None else z3.BoolVal(True)
         st.assume(z3.And(w >= 0, w < n, pw))
-        st.assume(z3.ForAll([k], z3.Implies(z3.And(k >= 0, k < w), z3.Not(pk))))
+        st.assume(FA([k], z3.Implies(z3.And(k >= 0, k < w), z3.Not(pk))))
         eng.assume_wf(st, xw)
         r = comp.map_fn(s, xw)
         self._flow_assumptions(st, s, [])
@@ -1189,10 +1195,10 @@ class Builtins:
         # side facts (len >= 0, well-formed reads) are heap facts about the elements in range
         for p in side:
             if any(self._mentions(p, q) for q in qs):
-                st.assume(z3.ForAll(qs, z3.Implies(rng, p)))
+                st.assume(FA(qs, z3.Implies(rng, p)))
             else:
                 st.assume(p)
-        return VBool(z3.ForAll(qs, z3.Implies(rng, body)))
+        return VBool(FA(qs, z3.Implies(rng, body)))
 
     def sp_exists(self, st, args, kwargs, node):
         eng = self.eng
@@ -1204,7 +1210,7 @@ class Builtins:
         side = st.pc[mark:]
         del st.pc[mark:]
         for p in side:
-            st.assume(z3.ForAll([q], z3.Implies(z3.And(q >= eng.as_int(lo), q < eng.as_int(hi)), p)) if self._mentions(p, q) else p)
+            st.assume(FA([q], z3.Implies(z3.And(q >= eng.as_int(lo), q < eng.as_int(hi)), p)) if self._mentions(p, q) else p)
         return VBool(z3.Exists([q], z3.And(q >= eng.as_int(lo), q < eng.as_int(hi), body)))
 
     def sp_implies(self, st, args, kwargs, node):
@@ -1238,7 +1244,7 @@ class Builtins:
         xs, pred = args[0], args[1]
         n = eng.as_int(args[2]) if len(args) > 2 else None
         xs = eng.coerce(st, xs, TList(xs.elem)) if isinstance(xs, VCList) else xs
-        arr = z3.Select(st.eltmap(sort_of(xs.elem)), xs.ref)
+        arr = eng.list_arr(st, xs)
         ln = eng.list_len(st, xs) if n is None else n
         comp = VComp(arr, ln, xs.elem, None, lambda s, x: eng.truthy(s, eng.call(s, pred, [x], {}, node)), st, node)
         return VInt(self.count_sym_fn(st, comp)(arr, ln))
@@ -1248,7 +1254,9 @@ class Builtins:
         eng = self.eng
         xs, f, pred = args[0], args[1], args[2]
         n = eng.as_int(args[3]) if len(args) > 3 else None
-        arr = z3.Select(st.eltmap(sort_of(xs.elem)), xs.ref)
+        if isinstance(xs, VCList):
+            xs = eng.materialize(st, xs)
+        arr = eng.list_arr(st, xs)
         ln = eng.list_len(st, xs) if n is None else n
         mf = (lambda s, x: eng.call(s, f, [x], {}, node)) if not isinstance(f, VNone) else None
         pf = (lambda s, x: eng.truthy(s, eng.call(s, pred, [x], {}, node))) if not isinstance(pred, VNone) else None
@@ -1268,6 +1276,18 @@ class Builtins:
         for a in args[1:]:
             t = z3.Concat(t, a.t)
         return VStr(t)
+
+    def sp_dict_values(self, st, args, kwargs, node):
+        return self.dict_values_list(st, args[0])
+
+    def sp_dict_keys(self, st, args, kwargs, node):
+        return self.dict_keys_list(st, args[0])
+
+    def sp_dict_get(self, st, args, kwargs, node):
+        d, k = args[0], args[1]
+        has = self.dict_has(st, d, k)
+        v = self.dict_get_raw(st, d, k)
+        return self.eng.ite_values(st, [(has, v), (z3.BoolVal(True), VNone())])
 
     def sp_has_key(self, st, args, kwargs, node):
         return VBool(self.dict_has(st, args[0], args[1]))
@@ -1461,9 +1481,9 @@ class Builtins:
                 sarr = z3.Select(em, src.ref)
                 new = st.fresh("ext", old.sort())
                 k = z3.Int("xk!")
-                st.assume(z3.ForAll([k], z3.Implies(z3.And(k >= 0, k < n), z3.Select(new, k) == z3.Select(old, k)),
+                st.assume(FA([k], z3.Implies(z3.And(k >= 0, k < n), z3.Select(new, k) == z3.Select(old, k)),
                                     patterns=[z3.Select(new, k)]))
-                st.assume(z3.ForAll([k], z3.Implies(z3.And(k >= 0, k < m), z3.Select(new, n + k) == z3.Select(sarr, k)),
+                st.assume(FA([k], z3.Implies(z3.And(k >= 0, k < m), z3.Select(new, n + k) == z3.Select(sarr, k)),
                                     patterns=[z3.Select(sarr, k)]))
                 st.heap[("ELT", sort_name(es))] = z3.Store(em, l.ref, new)
                 st.heap[("LEN",)] = z3.Store(st.lenmap(), l.ref, n + m)
@@ -1499,7 +1519,7 @@ class Builtins:
                 old = z3.Select(em, l.ref)
                 new = st.fresh("pop", old.sort())
                 k = z3.Int("pk!")
-                st.assume(z3.ForAll([k], z3.Implies(z3.And(k >= 0, k < n - 1), z3.Select(new, k) == z3.Select(old, k + 1)),
+                st.assume(FA([k], z3.Implies(z3.And(k >= 0, k < n - 1), z3.Select(new, k) == z3.Select(old, k + 1)),
                                     patterns=[z3.Select(new, k)]))
                 st.heap[("ELT", sort_name(es))] = z3.Store(em, l.ref, new)
                 st.heap[("LEN",)] = z3.Store(st.lenmap(), l.ref, n - 1)
@@ -1539,7 +1559,7 @@ class Builtins:
         w = st.fresh("idx", z3.IntSort())
         eq_w = eng.values_equal(s2, eng.list_get_raw(s2, l, w), x, node)
         st.assume(z3.And(w >= 0, w < n, eq_w))
-        st.assume(z3.ForAll([k], z3.Implies(z3.And(k >= 0, k < w), z3.Not(eq_k))))
+        st.assume(FA([k], z3.Implies(z3.And(k >= 0, k < w), z3.Not(eq_k))))
         return VInt(w)
 
     def str_method(self, st, s, name, args, kwargs, node):
